@@ -1,9 +1,10 @@
 pub mod c01;
+pub mod c02;
 
 use crate::framework::Property;
 
 pub fn all() -> Vec<Property> {
-    vec![c01::property()]
+    vec![c01::property(), c02::property()]
 }
 
 pub fn by_id(id: &str) -> Option<Property> {
